@@ -60,12 +60,17 @@ def law_cases(chk, rng, n):
             return LayerNormMLP(3, 2, [4], "elu", rngs=nnx.Rngs(seed))
         if kind == "double_q":
             return ContinuousClippedDoubleQNet(MLP(3, 1, [4], "relu", nnx.Rngs(seed)), MLP(3, 1, [4], "relu", nnx.Rngs(seed + 7)))
+        if kind == "tanh_policy":      # online and target heads built for different action boxes: scale / bias are leaves too
+            import gymnasium as gym
+            from rl_blox.blox.function_approximator.policy_head import DeterministicTanhPolicy
+            lo, hi = ((-1.0, -1.0), (1.0, 1.0)) if seed % 2 == 0 else ((-3.0, 0.5), (0.0, 2.5))
+            return DeterministicTanhPolicy(MLP(3, 2, [4], "relu", nnx.Rngs(seed)), gym.spaces.Box(np.asarray(lo, dtype=np.float32), np.asarray(hi, dtype=np.float32)))
         from rl_blox.blox.embedding.sale import SALE
         if kind == "sale":
             return SALE(MLP(3, 4, [4], "elu", nnx.Rngs(seed)), MLP(5, 4, [4], "elu", nnx.Rngs(seed + 3)))
         from rl_blox.blox.embedding.model_based_encoder import ModelBasedEncoder
         return ModelBasedEncoder(3, 1, 5, 4, 3, 4, [4], "elu", False, nnx.Rngs(seed))
-    kinds = ["mlp", "lnmlp", "double_q", "sale", "encoder"]
+    kinds = ["mlp", "lnmlp", "double_q", "sale", "encoder", "tanh_policy"]
     for i in range(n):
         kind = kinds[i % len(kinds)]
         online, target = make(kind, 2 * i), make(kind, 2 * i + 1)
@@ -336,6 +341,64 @@ def td7_checkpoint_mode(chk, rng, q, prefix="C06", check_release=False, check_wa
                              {"case": case, "iteration": i})
 
 
+def gradient_step_mode(chk, rng, q):
+    """DDPG / TD3 / TD3+LAP with several gradient steps per environment step: one snapshot per gradient step (the logger receives the
+    live modules), targets follow the Polyak law at every gradient step of a due environment step and stay unchanged otherwise"""
+    for name in ("ddpg", "td3", "td3_lap"):
+        for rep in range(1 if q else 6):
+            script = [(int(rng.choice([2, 3, 5])), str(rng.choice(["term", "trunc"]))) for _ in range(3)]
+            total, warm = int(rng.choice([8, 10])), int(rng.choice([0, 3]))
+            G, pd, tau = int([2, 3][rep % 2]), int([2, 1, 3][rep % 3]), float([0.25, 0.5, 0.125][rep % 3])
+            case = {"routine": name, "script": script, "total_timesteps": total, "learning_starts": warm, "gradient_steps": G, "policy_delay": pd, "tau": tau}
+            seq, mods_ref = [], {}
+            logger = SnapLogger(mods_ref, seq)
+            logger.record_epoch = lambda key, value, _l=logger, **k: _l.out.append(("epoch", _l.snapshot(_l.mods))) if key == "q" else None
+            orig_snapshot = tr.snapshot
+
+            def snap(mods):
+                mods_ref.update(mods)
+                sn = orig_snapshot(mods)
+                seq.append(("step", sn))
+                return sn
+            tr.snapshot = snap
+            try:
+                res = tr.run(name, script, total, warm=warm, seed=int(rng.integers(0, 1000)),
+                             extra={"pd": pd, "tau": tau, "logger": logger, "kw": {"gradient_steps": G}})
+            finally:
+                tr.snapshot = orig_snapshot
+            chk.case(("gradient-steps", str(case)))
+            chk.count("gradient_step_runs")
+            if res["raised"]:
+                continue
+            due = (lambda s_: s_ >= warm) if name == "ddpg" else (lambda s_: s_ >= warm and s_ % pd == 0)
+            it, per_it = -1, {}
+            for (k0, a), (k1, b) in zip(seq, seq[1:]):
+                if k0 == "step":
+                    it += 1
+                if k1 == "epoch":
+                    per_it[it] = per_it.get(it, 0) + 1
+                    for target, source, when, kind in TARGETS[name]:
+                        if due(it):
+                            ok = follows("soft", tau, b[source], a[target], b[target])
+                        else:
+                            ok = tr.same(a[target], b[target])
+                        if not ok:
+                            chk.fail(f"C06:train_{name}:gradient-step-law", f"{target} does not follow the documented rule at a gradient step (Polyak step at "
+                                     "every gradient step of an update point, unchanged otherwise)", {"case": case, "env_step": it, "gradient_step": per_it[it]})
+                            break
+                    chk.count("gradient_steps_checked")
+                else:
+                    for target, _, _, _ in TARGETS[name]:
+                        if not tr.same(a[target], b[target]):
+                            chk.fail(f"C06:train_{name}:gradient-step-law", f"{target} changed outside a gradient step", {"case": case, "env_step": it})
+            n_steps = len(tr.step_events(res))
+            for i in range(n_steps):
+                if per_it.get(i, 0) != (G if i >= warm else 0):
+                    chk.fail(f"C06:train_{name}:gradient-steps", "the number of gradient steps in an iteration differs from the configured gradient_steps",
+                             {"case": case, "env_step": i, "observed": per_it.get(i, 0)})
+                    break
+
+
 def main(chk):
     chk.proof_step()
     rng = np.random.default_rng(chk.seed)
@@ -344,6 +407,7 @@ def main(chk):
     clone_cases(chk, rng)
     cadence(chk, rng, q)
     td7_checkpoint_mode(chk, rng, q)
+    gradient_step_mode(chk, rng, q)
     chk.sample({"note": "laws: MLP / LayerNorm MLP / double-Q / SALE / model-based encoder trees with perturbed values, tau in {0, 1/4, 1/2, 1, 0.005} and "
                         "hard copies; cadence: snapshots of online and target parameters at every env.step of scripted training runs"})
     return chk.finish(
